@@ -25,6 +25,7 @@ func checkC07(c *Check) {
 		{"ReadResultJSONWriteResultTL2", "ReadResultJSON", "WriteResultTL2"},
 	}
 	withCorpora(c, true, func(g *genCtx) {
+		natArgAgreement(c, g, "result-nat-arguments-agree", "WriteResultTL1", []string{"ReadResultTL1", "ReadResultJSON", "WriteResultJSON", "writeResultJSON"})
 		for _, fam := range g.families() {
 			roles := g.byFam[fam]
 			if roles["ReadResultTL1"] == nil && roles["ReadResultTL2"] == nil && roles["ReadResultJSON"] == nil {
